@@ -21,7 +21,15 @@ Proof.
   intros H Hl w. destruct (pseudo_exact_all p m H) as (_ & _ & Hx). specialize (Hx Hl).
   unfold pseudoLegalMoves, pseudoLegalMovesT in Hx. cbv zeta in Hx.
   rewrite (pawnBlock_app p H), (knightBlock_app p H), (castleMoves_app p), (kingBlock_app p),
-          (bishopBlock_app p H), (rookBlock_app p H), (queenBlock_app p H) in Hx. cbn [In] in Hx. fold w in Hx. tauto.
+          (bishopBlock_app p H), (rookBlock_app p H), (queenBlock_app p H) in Hx. cbn [In] in Hx.
+  destruct Hx as [[[[[[[[]|HQ]|HR]|HB]|HK]|HC]|HN]|HP].
+  - left. exact HQ.
+  - right. left. exact HR.
+  - right. right. left. exact HB.
+  - right. right. right. left. exact HK.
+  - right. right. right. right. left. exact HC.
+  - right. right. right. right. right. left. exact HN.
+  - right. right. right. right. right. right. exact HP.
 Qed.
 
 (** sqAttackedT is the disjunction of its five tests *)
@@ -85,4 +93,263 @@ Proof.
   - intros s1 s2 A1' A2' B1' B2'. apply (king_unique p (negb w) s1 s2 H A1' A2' B1' B2').
 Qed.
 
+Lemma own_myPiece X : In X [WQUEEN; WROOK; WBISHOP; WKNIGHT; WKING] ->
+  ownPiece w (myPiece w X) = true /\ has_color w (myPiece w X) = true /\ isPawnPiece (myPiece w X) = false /\
+  (myPiece w X =? (if w return piece then WPAWN else BPAWN)) = false /\
+  (myPiece w X =? WPAWN) = false /\ (myPiece w X =? BPAWN) = false /\
+  (X <> WKING -> isKingPiece (myPiece w X) = false /\ (myPiece w X =? (if w return piece then WKING else BKING)) = false).
+Proof.
+  intro HX. cbn [In] in HX.
+  destruct HX as [<-|[<-|[<-|[<-|[<-|[]]]]]]; destruct w; cbn; repeat split; try reflexivity; congruence.
+Qed.
+
+Lemma not_has_color_own c : c < 13 -> has_color w c = false -> ownPiece w c = false.
+Proof.
+  intros Hc H. unfold ownPiece. destruct w.
+  - rewrite white_has_color by exact Hc. exact H.
+  - rewrite black_has_color by exact Hc. exact H.
+Qed.
+
+Lemma kingStep_dist s t' : s < 64 -> t' < 64 -> N.testbit (kingAttacks s) t' = true -> (getKingDistance s t' <= 1)%Z.
+Proof.
+  intros Hs Ht H.
+  pose proof (sweep2 (fun s t' => if N.testbit (kingAttacks s) t' then (getKingDistance s t' <=? 1)%Z else true) eq_refl s t' Hs Ht) as G.
+  cbv beta in G. rewrite H in G. apply Z.leb_le. exact G.
+Qed.
+
+(** MoveFacts for a move of the queen, rook, bishop, knight or king block *)
+Lemma piece_moveFacts X :
+  In X [WQUEEN; WROOK; WBISHOP; WKNIGHT; WKING] ->
+  m = mkMove f t EMPTY -> f < 64 -> t < 64 -> pc = myPiece w X -> has_color w cap = false ->
+  sqAttackedT (negb w) p t (occupiedBB p) = true ->
+  (X = WKING -> N.testbit (kingAttacks f) t = true) ->
+  MoveFacts p m.
+Proof.
+  intros HX Hm Hf Ht Hpc Hcol Hatk Hking.
+  destruct (own_myPiece X HX) as (Ho & Hhc & Hnp & Hnpw & HnW & HnB & Hnk).
+  assert (Hcap13 : cap < 13).
+  { destruct Hrev as [C _ _ _ _]. destruct C. apply (getPiece_lt p t c_pieces). }
+  assert (Hne : f <> t).
+  { intro E. unfold cap in Hcol. rewrite <- E in Hcol. change (nthP sqs f) with pc in Hcol. rewrite Hpc, Hhc in Hcol. discriminate. }
+  assert (Hprom : mpromote m = EMPTY) by (rewrite Hm; reflexivity).
+  assert (Hmf : mfrom m = f) by reflexivity. assert (Hmt : mto m = t) by reflexivity.
+  constructor.
+  - (* moveOk *)
+    unfold moveOk. cbv zeta. rewrite Hprom, Hmf, Hmt. fold w.
+    change (getPiece p f) with pc. change (getPiece p t) with cap. rewrite Hpc.
+    replace (f <? 64) with true by (symmetry; apply N.ltb_lt; exact Hf).
+    replace (t <? 64) with true by (symmetry; apply N.ltb_lt; exact Ht).
+    replace (f =? t) with false by (symmetry; apply N.eqb_neq; exact Hne).
+    rewrite Ho, (not_has_color_own cap Hcap13 Hcol), Hnpw. cbn [negb andb]. change (EMPTY =? EMPTY) with true. cbv iota.
+    destruct (N.eq_dec X WKING) as [EX|EX].
+    + subst X. specialize (Hking eq_refl).
+      replace (myPiece w WKING =? (if w return piece then WKING else BKING)) with true by (destruct w; reflexivity).
+      destruct (king_not_two f Hf) as (A & B).
+      replace (t =? f + 2) with false by (symmetry; apply N.eqb_neq; intro E; rewrite E, A in Hking; discriminate).
+      destruct (2 <=? f) eqn:H2; [|reflexivity]. apply N.leb_le in H2.
+      replace (t =? f - 2) with false by (symmetry; apply N.eqb_neq; intro E; rewrite E, (B H2) in Hking; discriminate).
+      reflexivity.
+    + destruct (Hnk EX) as (_ & E). rewrite E. reflexivity.
+  - (* pushOk *)
+    unfold pushOk. cbn [abs sp_board]. rewrite Hmf. fold sqs. change (nthP sqs f) with pc. rewrite Hpc. split; intro E.
+    + apply N.eqb_eq in E. congruence.
+    + apply N.eqb_eq in E. congruence.
+  - rewrite Hmt. apply (attacked_no_king Ht Hcol Hatk).
+  - rewrite Hmf, Hmt. intro Hk. left. destruct (N.eq_dec X WKING) as [EX|EX].
+    + apply (kingStep_dist f t Hf Ht). apply Hking. exact EX.
+    + exfalso. destruct (Hnk EX) as (E & _). change (getPiece p f) with pc in Hk. rewrite Hpc, E in Hk. discriminate.
+  - rewrite Hmf. change (getPiece p f) with pc. rewrite Hpc, Hnp. discriminate.
+  - rewrite Hmf. change (getPiece p f) with pc. rewrite Hpc, Hnp. discriminate.
+  - rewrite Hmf. change (getPiece p f) with pc. rewrite Hpc, Hnp. discriminate.
+Qed.
+
 End Legal.
+
+(** * Completeness for the moves of the queen, rook, bishop, knight and king blocks *)
+Section Pieces.
+Variable zk : zkeys.
+Hypothesis EKZ : emptyKeysZero zk.
+Variable p : position.
+Variable m : move.
+Variable incl : bool.
+Hypothesis Hrev : WFrev zk p.
+Hypothesis Hinc : incl = true \/ epSquare p = (-1)%Z \/
+                  (isPawnPiece (getPiece p (mfrom m)) = true /\ Z.of_N (mto m) = epSquare p).
+
+Let w := whiteMove p.
+Let q := successor zk p m.
+Let ui0 := withClock (snd (makeMove zk p m)) 0.
+
+Definition CompleteAt : Prop :=
+  In (mkUnMove m ui0) (genMoves zk q incl) /\
+  normEmpty (unMakeMove zk q m ui0) = normEmpty (set_halfMoveClock p 0).
+
+Lemma Hwf : WF p.
+Proof. destruct Hrev as [_ H _ _ _]. exact H. Qed.
+
+Lemma colorBit s : N.testbit (colorBB p w) s = false -> s < 64 -> has_color w (getPiece p s) = false.
+Proof.
+  intros H Hs. rewrite (colorBB_testbit p w s Hwf) in H.
+  replace (s <? 64) with true in H by (symmetry; apply N.ltb_lt; exact Hs). exact H.
+Qed.
+
+Lemma pieceBit X s : In X [WQUEEN; WROOK; WBISHOP; WKNIGHT; WKING] ->
+  N.testbit (ptBB p (myPiece w X)) s = true -> s < 64 /\ getPiece p s = myPiece w X.
+Proof.
+  intros HX H. rewrite (ptBB_testbit p _ s Hwf) in H.
+  - apply andb_true_iff in H. destruct H as (A & B). apply N.ltb_lt in A. apply N.eqb_eq in B. auto.
+  - cbn [In] in HX. destruct HX as [<-|[<-|[<-|[<-|[<-|[]]]]]]; destruct w; cbn; tauto.
+Qed.
+
+Lemma slider_sym (atk : square -> N -> N) (al : square -> square -> bool) occ s t' :
+  (forall a b o, a < 64 -> b < 64 -> (N.testbit (atk a o) b = true <-> al a b = true /\ N.land (squaresBetween a b) o = 0)) ->
+  (forall a b, a < 64 -> b < 64 -> al a b = al b a) ->
+  s < 64 -> t' < 64 -> N.testbit (atk s occ) t' = true -> N.testbit (atk t' occ) s = true.
+Proof.
+  intros Hspec Hsym Hs Ht H. apply (Hspec s t' occ Hs Ht) in H. destruct H as (A & B).
+  apply (Hspec t' s occ Ht Hs). split; [rewrite <- (Hsym s t' Hs Ht); exact A|].
+  destruct (sym_facts s t' Hs Ht) as (_ & _ & E & _). rewrite <- E. exact B.
+Qed.
+
+(** common end of the five cases *)
+Lemma finish X f t :
+  In X [WQUEEN; WROOK; WBISHOP; WKNIGHT; WKING] ->
+  m = mkMove f t EMPTY -> f < 64 -> t < 64 -> getPiece p f = myPiece w X -> has_color w (getPiece p t) = false ->
+  sqAttackedT (negb w) p t (occupiedBB p) = true ->
+  (X = WKING -> N.testbit (kingAttacks f) t = true) ->
+  (MoveFacts p m -> In m (revMoveList q)) -> CompleteAt.
+Proof.
+  intros HX Hm Hf Ht Hpc Hcol Hatk Hk Hraw.
+  assert (MF : MoveFacts p m).
+  { apply (piece_moveFacts zk p m Hrev X HX); rewrite Hm; cbn [mfrom mto]; auto. }
+  apply (complete_given_raw zk EKZ p m incl Hrev MF Hinc). apply Hraw. exact MF.
+Qed.
+
+Theorem complete_knightBlock : In m (knightBlock w p []) -> CompleteAt.
+Proof.
+  intro H. unfold knightBlock in H.
+  apply forSquares_moves_In in H.
+  2:{ apply (ptBB_lt p _ Hwf). destruct w; cbn; tauto. }
+  2:{ intros sq _. apply ldiff_lt, knightAttacks_lt. }
+  destruct H as [[]|(f & t & Hb & Ha & Hm)].
+  destruct (pieceBit WKNIGHT f ltac:(cbn; tauto) Hb) as (Hf & Hpc).
+  unfold andn in Ha. rewrite N.ldiff_spec in Ha. apply andb_true_iff in Ha. destruct Ha as (Ha & Hc). apply negb_true_iff in Hc.
+  assert (Ht : t < 64) by (apply (bits_below_64 _ (proj2 (knightAttacks_lt f)) t Ha)).
+  apply (finish WKNIGHT f t ltac:(cbn; tauto) Hm Hf Ht Hpc (colorBit t Hc Ht)).
+  - rewrite sqAttackedT_or, negb_involutive. fold w.
+    replace (nz (N.land (knightAttacks t) (ptBB p (myPiece w WKNIGHT)))) with true; [reflexivity|].
+    symmetry. apply (nz_land _ _ f); [|exact Hb]. destruct (sym_facts f t Hf Ht) as (E & _). rewrite <- E. exact Ha.
+  - discriminate.
+  - intro MF. apply (raw_knight zk EKZ p m Hrev MF); rewrite Hm; cbn [mfrom mto]; assumption.
+Qed.
+
+Theorem complete_kingBlock : In m (kingBlock w p []) -> CompleteAt.
+Proof.
+  intro H. unfold kingBlock in H. cbv zeta in H.
+  apply addMovesByMask_In in H; [|apply ldiff_lt, kingAttacks_lt].
+  destruct H as [[]|(t & Ha & Hm)].
+  set (f := kingSq p w) in *.
+  destruct (kingSq_spec p w Hwf) as (Hf & Hpc0). fold f in Hf, Hpc0.
+  assert (Hpc : getPiece p f = myPiece w WKING) by (rewrite Hpc0; destruct w; reflexivity).
+  assert (Hb : N.testbit (ptBB p (myPiece w WKING)) f = true).
+  { rewrite (ptBB_testbit p _ f Hwf) by (destruct w; cbn; tauto). rewrite Hpc, N.eqb_refl.
+    replace (f <? 64) with true by (symmetry; apply N.ltb_lt; exact Hf). reflexivity. }
+  unfold andn in Ha. rewrite N.ldiff_spec in Ha. apply andb_true_iff in Ha. destruct Ha as (Ha & Hc). apply negb_true_iff in Hc.
+  assert (Ht : t < 64) by (apply (bits_below_64 _ (kingAttacks_lt f) t Ha)).
+  apply (finish WKING f t ltac:(cbn; tauto) Hm Hf Ht Hpc (colorBit t Hc Ht)).
+  - rewrite sqAttackedT_or, negb_involutive. fold w.
+    replace (nz (N.land (kingAttacks t) (ptBB p (myPiece w WKING)))) with true; [rewrite orb_true_r; reflexivity|].
+    symmetry. apply (nz_land _ _ f); [|exact Hb]. destruct (sym_facts f t Hf Ht) as (_ & E & _). rewrite <- E. exact Ha.
+  - intros _. exact Ha.
+  - intro MF. apply (raw_king zk EKZ p m Hrev MF); rewrite Hm; cbn [mfrom mto]; assumption.
+Qed.
+
+Theorem complete_bishopBlock : In m (bishopBlock w p []) -> CompleteAt.
+Proof.
+  intro H. unfold bishopBlock in H. cbv zeta in H.
+  apply forSquares_moves_In in H.
+  2:{ apply (ptBB_lt p _ Hwf). destruct w; cbn; tauto. }
+  2:{ intros sq Hs. apply ldiff_lt, bishopAttacks_lt. exact Hs. }
+  destruct H as [[]|(f & t & Hb & Ha & Hm)].
+  destruct (pieceBit WBISHOP f ltac:(cbn; tauto) Hb) as (Hf & Hpc).
+  unfold andn in Ha. rewrite N.ldiff_spec in Ha. apply andb_true_iff in Ha. destruct Ha as (Ha & Hc). apply negb_true_iff in Hc.
+  assert (Ht : t < 64) by (apply (bishopAttacks_in_board f t _ Hf Ha)).
+  apply (finish WBISHOP f t ltac:(cbn; tauto) Hm Hf Ht Hpc (colorBit t Hc Ht)).
+  - rewrite sqAttackedT_or, negb_involutive. fold w.
+    replace (nz (N.land (bishopAttacks t (occupiedBB p)) (N.lor (ptBB p (myPiece w WBISHOP)) (ptBB p (myPiece w WQUEEN))))) with true;
+      [rewrite orb_true_r; reflexivity|].
+    symmetry. apply (nz_land _ _ f); [|rewrite N.lor_spec, Hb; reflexivity].
+    apply (slider_sym bishopAttacks bishopAligned _ f t bishopAttacks_spec (fun a b A B => proj2 (proj2 (proj2 (proj2 (proj2 (proj2 (sym_facts a b A B))))))) Hf Ht Ha).
+  - discriminate.
+  - intro MF. apply (raw_bishop zk EKZ p m Hrev MF); rewrite Hm; cbn [mfrom mto]; assumption.
+Qed.
+
+Theorem complete_rookBlock : In m (rookBlock w p []) -> CompleteAt.
+Proof.
+  intro H. unfold rookBlock in H. cbv zeta in H.
+  apply forSquares_moves_In in H.
+  2:{ apply (ptBB_lt p _ Hwf). destruct w; cbn; tauto. }
+  2:{ intros sq Hs. apply ldiff_lt, rookAttacks_lt. exact Hs. }
+  destruct H as [[]|(f & t & Hb & Ha & Hm)].
+  destruct (pieceBit WROOK f ltac:(cbn; tauto) Hb) as (Hf & Hpc).
+  unfold andn in Ha. rewrite N.ldiff_spec in Ha. apply andb_true_iff in Ha. destruct Ha as (Ha & Hc). apply negb_true_iff in Hc.
+  assert (Ht : t < 64) by (apply (rookAttacks_in_board f t _ Hf Ha)).
+  apply (finish WROOK f t ltac:(cbn; tauto) Hm Hf Ht Hpc (colorBit t Hc Ht)).
+  - rewrite sqAttackedT_or, negb_involutive. fold w.
+    replace (nz (N.land (rookAttacks t (occupiedBB p)) (N.lor (ptBB p (myPiece w WROOK)) (ptBB p (myPiece w WQUEEN))))) with true;
+      [rewrite orb_true_r; reflexivity|].
+    symmetry. apply (nz_land _ _ f); [|rewrite N.lor_spec, Hb; reflexivity].
+    apply (slider_sym rookAttacks rookAligned _ f t rookAttacks_spec (fun a b A B => proj1 (proj2 (proj2 (proj2 (proj2 (proj2 (sym_facts a b A B))))))) Hf Ht Ha).
+  - discriminate.
+  - intro MF. apply (raw_rook zk EKZ p m Hrev MF); rewrite Hm; cbn [mfrom mto]; assumption.
+Qed.
+
+Theorem complete_queenBlock : In m (queenBlock w p []) -> CompleteAt.
+Proof.
+  intro H. unfold queenBlock in H. cbv zeta in H.
+  apply forSquares_moves_In in H.
+  2:{ apply (ptBB_lt p _ Hwf). destruct w; cbn; tauto. }
+  2:{ intros sq Hs. apply ldiff_lt. apply lt_2_64_of_bits. intros i Hi. rewrite N.lor_spec, orb_true_iff in Hi.
+      destruct Hi as [Hi|Hi]; [exact (rookAttacks_in_board sq i _ Hs Hi) | exact (bishopAttacks_in_board sq i _ Hs Hi)]. }
+  destruct H as [[]|(f & t & Hb & Ha & Hm)].
+  destruct (pieceBit WQUEEN f ltac:(cbn; tauto) Hb) as (Hf & Hpc).
+  unfold andn in Ha. rewrite N.ldiff_spec in Ha. apply andb_true_iff in Ha. destruct Ha as (Ha & Hc). apply negb_true_iff in Hc.
+  assert (Ht : t < 64).
+  { rewrite N.lor_spec in Ha. apply orb_true_iff in Ha.
+    destruct Ha as [A|A]; [apply (rookAttacks_in_board f t _ Hf A) | apply (bishopAttacks_in_board f t _ Hf A)]. }
+  apply (finish WQUEEN f t ltac:(cbn; tauto) Hm Hf Ht Hpc (colorBit t Hc Ht)).
+  - rewrite sqAttackedT_or, negb_involutive. fold w.
+    rewrite N.lor_spec in Ha. apply orb_true_iff in Ha. destruct Ha as [A|A].
+    + replace (nz (N.land (rookAttacks t (occupiedBB p)) (N.lor (ptBB p (myPiece w WROOK)) (ptBB p (myPiece w WQUEEN))))) with true;
+        [rewrite orb_true_r; reflexivity|].
+      symmetry. apply (nz_land _ _ f); [|rewrite N.lor_spec, Hb; apply orb_true_r].
+      apply (slider_sym rookAttacks rookAligned _ f t rookAttacks_spec (fun a b A' B => proj1 (proj2 (proj2 (proj2 (proj2 (proj2 (sym_facts a b A' B))))))) Hf Ht A).
+    + replace (nz (N.land (bishopAttacks t (occupiedBB p)) (N.lor (ptBB p (myPiece w WBISHOP)) (ptBB p (myPiece w WQUEEN))))) with true;
+        [rewrite orb_true_r; reflexivity|].
+      symmetry. apply (nz_land _ _ f); [|rewrite N.lor_spec, Hb; apply orb_true_r].
+      apply (slider_sym bishopAttacks bishopAligned _ f t bishopAttacks_spec (fun a b A' B => proj2 (proj2 (proj2 (proj2 (proj2 (proj2 (sym_facts a b A' B))))))) Hf Ht A).
+  - discriminate.
+  - intro MF. apply (raw_queen zk EKZ p m Hrev MF); rewrite Hm; cbn [mfrom mto]; assumption.
+Qed.
+
+End Pieces.
+
+(** * C15_complete, partial: every legal move that is not castling and not a pawn move *)
+Theorem complete_partial zk (EKZ : emptyKeysZero zk) p m incl :
+  WFrev zk p -> legal_spec (abs p) m ->
+  (incl = true \/ epSquare p = (-1)%Z \/
+   (isPawnPiece (getPiece p (mfrom m)) = true /\ Z.of_N (mto m) = epSquare p)) ->
+  In m (castleMoves (whiteMove p) p (occupiedBB p) (kingSq p (whiteMove p)) []) \/
+  In m (pawnBlock (whiteMove p) p []) \/
+  CompleteAt zk p m incl.
+Proof.
+  intros Hrev Hl Hinc. pose proof (wr_wf zk p Hrev) as Hwf'.
+  destruct (blocks_of_legal p m Hwf' Hl) as [H|[H|[H|[H|[H|[H|H]]]]]].
+  - right. right. apply (complete_queenBlock zk EKZ p m incl Hrev Hinc H).
+  - right. right. apply (complete_rookBlock zk EKZ p m incl Hrev Hinc H).
+  - right. right. apply (complete_bishopBlock zk EKZ p m incl Hrev Hinc H).
+  - right. right. apply (complete_kingBlock zk EKZ p m incl Hrev Hinc H).
+  - left. exact H.
+  - right. right. apply (complete_knightBlock zk EKZ p m incl Hrev Hinc H).
+  - right. left. exact H.
+Qed.
